@@ -13,20 +13,21 @@ PROP = {
         "the theorems carry the explicit hypothesis 2 * chunks <= SLOT_NUM)",
         "the commit theorems are stated for any cluster satisfying CommitInv = PosInv + TwinInv + 'stored migration "
         "range lists are compact-fixed' (BrokerDefs invariants, hypotheses here: their preservation by every "
-        "operation is C01's obligation; SlotInv => the third part is proved as C10_commitInv_of_invs)",
+        "operation is C01's obligation; SlotInv => the third part is proved as C10_commitInv_of_invs, and "
+        "SlotInv + TwinInv => pairwise disjointness of stable and importing ranges as C10_projInv_of_invs)",
         "commit_migration(clear=true) needs a valid cluster name (guaranteed by the ClusterName type in the code; "
         "the model takes a String)",
     ],
     "gaps": [
-        "C10_balanced is proved in three pieces: add_cluster creates a balanced cluster (C10_balanced_create); the "
-        "scale-out and scale-down planners on a balanced cluster leave/plan exactly the new quotas without panic "
-        "or fuel exhaustion (C10_balanced_scale_out_plan_partial, C10_balanced_scale_down_plan_partial); commits "
-        "in any order terminate after exactly #pending calls (C10_terminates). The composition 'plan -> "
-        "assign_dst_slots -> all commits => Balanced with the new master number' is not assembled: it needs that the "
-        "ranges of a destination half and of the entries imported into it are pairwise disjoint (slot-set "
-        "invariant SlotInv, owned by C01) so that merge_another adds slot counts",
-        "failovers interleaved with the commits are covered by the correspondence oracle only (takeover_master "
-        "changes epochs/roles, not ranges; preservation of PosInv/TwinInv under failover is C04/C01's obligation)",
+        "C10_balanced_scale_out / C10_balanced_scale_down are conditional on the shared invariants PosInv, TwinInv, "
+        "SlotInv (UmProofs/BrokerDefs.lean) holding for the cluster that migrate_slots* writes and for the cluster "
+        "after every interleaved failover; that reachable states satisfy them is C01's (and C04's) obligation and is "
+        "not re-proved here, so there is no single theorem over `Reachable s` yet. Everything else (planner "
+        "arithmetic, assign_dst_slots, commits in any order, clear flags, release, failover-invariance of the "
+        "profile) is proved outright",
+        "the end-to-end theorems start from a cluster in the exact balanced shape without pending tasks and a "
+        "single resize; chained resizes follow by re-applying them (the result is again in that shape), but the "
+        "induction over arbitrary operation sequences is left to the combination with C01",
     ],
     "trusted": [
         "hand-written transliteration UmModel/Broker.lean of every MetaStore mutator (replayed against the real "
@@ -49,17 +50,22 @@ CHECK = {
             "entry's descriptor is accepted, the commit removes exactly that entry and its importing twin and merges "
             "the ranges into the destination half, unknown descriptors get MIGRATION_TASK_NOT_FOUND without change, "
             "the invariants are preserved, and any chain of successful commits in any order (any clear flag) ends the "
-            "migration after exactly #pending calls and can always be continued before; (balance, partial) add_cluster "
-            "creates a balanced cluster (master i of m owns 16384/m + [i < 16384 % m] slots), and on a balanced "
-            "cluster remove_slots_from_src (k extra empty chunks) and remove_slots_from_src_to_scale_down (to n' < n "
-            "chunks, destinations already at their final count skipped) neither panic nor exhaust their loop fuel, "
-            "leave every source master with exactly its new quota resp. empty, and plan for every destination master "
-            "exactly new quota - old holding (greedy two-pointer lemma). The end-to-end composition through "
-            "assign_dst_slots and the commits is checked by the balance oracle on the implementation after every "
-            "operation (chains of resizes, random commit orders, failovers interleaved).",
-    "note": "Trusted: Lean kernel; hand-written broker model (validated differentially each run). Gap: the composition "
-            "plan + commits => balanced needs C01's slot-set invariant (disjointness) and is not assembled; failover "
-            "interleavings are covered by the oracle only. Observation: the refusal code is not always "
-            "MIGRATION_RUNNING (migrate_slots_to_scale_down answers FREE_NODE_FOUND during a scale-out; proved as "
+            "migration after exactly #pending calls and can always be continued before; (balance) add_cluster creates "
+            "a balanced cluster (master i of m owns 16384/m + [i < 16384 % m] slots); from a balanced idle cluster with "
+            "k extra empty chunks migrate_slots, and to n' < n chunks migrate_slots_to_scale_down, succeed: neither "
+            "planner panics or exhausts its loop fuel, every source master keeps exactly its new quota resp. is "
+            "drained, every destination is planned exactly new quota - old holding (greedy two-pointer lemma; "
+            "destinations already at their final count are skipped), assign_dst_slots does not panic; and if the "
+            "written cluster satisfies the shared invariants PosInv/TwinInv/SlotInv, every chain of commits in any "
+            "order, with any clear flags and with failovers interleaved, that exhausts the pending tasks ends in a "
+            "balanced cluster with the new master number - after a scale-in exactly the chunks >= n' are slot-less "
+            "(and released if a commit cleared them). Tie to the code: the model is replayed against the real "
+            "MetaStore on every run and the refusal / release / balance oracles are evaluated on the implementation "
+            "after every operation (chains of resizes, random commit orders, failovers interleaved).",
+    "note": "Trusted: Lean kernel; hand-written broker model (validated differentially each run). Conditional part: "
+            "that the clusters written by migrate_slots* and by interleaved failovers satisfy PosInv/TwinInv/SlotInv "
+            "is C01's obligation (hypotheses of C10_balanced_scale_out/_down); a theorem over all reachable states "
+            "needs that combination. Observation: the refusal code is not always MIGRATION_RUNNING "
+            "(migrate_slots_to_scale_down answers FREE_NODE_FOUND during a scale-out; proved as "
             "C10_refuse_other_code).",
 }
